@@ -108,10 +108,28 @@ def model_check(ctx):
 
 
 def simulate(ctx, n_per_worker, workers):
+    """Random behaviours of the B model (server answers, enqueue order, completion order)."""
     sub = dict(STARTS="{0,1,3}", SIZES="{1,4,6,9}", MAXIDXS="{0,3}", BATCHES="{1,2,3,5}", NFS="{1,2,3}",
-               NMS="{1,2,3}", KPS="{1,2,3,4}", FAULTS=4, CAPF=1000, CAPJ=100000)
+               NMS="{1,2,3}", KPS="{1,2,3,4}", FAULTS=4, CAPF=1000, CAPJ=100000, HISTKINDS='{"ans", "enq", "proc"}')
     r = ctx.tlc("CTScannerImpl", "CTScanner_sim.cfg", subst=sub, simulate="num=%d" % n_per_worker, depth=600,
                 workers=workers, timeout=1500, label="CTScannerImpl simulate")
+    return behaviours(ctx, r, 0)
+
+
+def server_scripts(ctx):
+    """Exhaustive: every server script (every sequence of errors / truncated / complete answers with at most
+    FAULTS faults, in every global order over the ranges) of a small configuration, by breadth-first search
+    with the answers kept in the state."""
+    if ctx.quick:
+        sub = dict(STARTS="{0}", SIZES="{3}", MAXIDXS="{0}", BATCHES="{2}", NFS="{2}", NMS="{1}", KPS="{3}", FAULTS=1)
+    else:
+        sub = dict(STARTS="{1}", SIZES="{6}", MAXIDXS="{0}", BATCHES="{2,3}", NFS="{2}", NMS="{1}", KPS="{4}", FAULTS=2)
+    sub.update(CAPF=1000, CAPJ=100000, HISTKINDS='{"ans"}')
+    r = ctx.tlc("CTScannerImpl", "CTScanner_sim.cfg", subst=sub, timeout=3000, label="CTScannerImpl all server scripts")
+    return behaviours(ctx, r, 500000)
+
+
+def behaviours(ctx, r, base):
     seen, cases = set(), []
     for line in r.out.splitlines():
         if not line.startswith('"{'):
@@ -122,9 +140,9 @@ def simulate(ctx, n_per_worker, workers):
             continue
         seen.add(k)
         b["cfg"]["ign"] = False
-        cases.append({"cfg": b["cfg"], "ev": b["ev"], "mode": "sched", "rseed": ctx.seed * 1000003 + len(cases)})
+        cases.append({"cfg": b["cfg"], "ev": b["ev"], "mode": "sched", "rseed": ctx.seed * 1000003 + base + len(cases)})
     if not cases:
-        raise Machinery("simulation produced no behaviours")
+        raise Machinery("TLC produced no behaviours")
     return cases
 
 
@@ -164,13 +182,14 @@ def run_cases(ctx, binary, cases, tag, parallel):
         for i, chunk, cout, prog, p in [r for f in futs for r in f.result()]:
             if p.returncode not in (0, 4):
                 # the process died: a panic in a goroutine of the code under test is an observation
-                at = int(open(prog).read().strip() or "-1") if os.path.exists(prog) else -1
-                if at < 0 or not re.search(r"^(panic:|fatal error:)", p.stderr, re.M):
+                # (the panicking goroutine may belong to an earlier scan of the chunk that had already
+                # returned, so the whole chunk is the replay unit)
+                if not re.search(r"^(panic:|fatal error:)", p.stderr, re.M):
                     raise Machinery("harness died without a Go panic: rc=%d\n%s" % (p.returncode, p.stderr[-2000:]))
                 if "zmap/zcrypto/ct" not in p.stderr:
                     raise Machinery("harness panicked outside the code under test:\n" + p.stderr[-3000:])
                 m = re.search(r"^(panic:.*|fatal error:.*)$", p.stderr, re.M)
-                crashes.append({"case": chunk[at], "msg": m.group(1)})
+                crashes.append({"case": {"mode": "chunk", "cases": chunk}, "msg": m.group(1)})
                 continue
             evs = read_ndjson(cout)
             cur = None
@@ -224,6 +243,15 @@ def case_sig(case, ev):
 
 def reproduce_case(ctx, binary, path, attempts=3):
     """Fresh process: run the case again, let TLC judge the new trace at level A."""
+    body = json.load(open(path))
+    if body.get("case", {}).get("mode") == "chunk":        # a crash of the process: run the same cases again
+        for k in range(attempts):
+            cin = ctx.path("crash_%s_%d.ndjson" % (os.path.basename(path), k))
+            write_ndjson(cin, body["case"]["cases"])
+            p = ctx.run(binary, ["run", cin, cin + ".out"], timeout=3000, ok_codes=(0, 2, 4))
+            if p.returncode == 2 and re.search(r"^(panic:|fatal error:)", p.stderr, re.M) and "zmap/zcrypto/ct" in p.stderr:
+                return True
+        return False
     for k in range(attempts):
         out = ctx.path("replay_%s_%d.ndjson" % (os.path.basename(path), k))
         p = ctx.run(binary, ["replay", path, out], timeout=600, ok_codes=(0, 2))
@@ -360,7 +388,9 @@ def run(ctx):
 
     # U2: TLC-simulated behaviours forced onto the real Scan
     w = 2 if quick else min(8, ctx.workers)
-    sched = simulate(ctx, 30 if quick else 400, w)
+    scripts = server_scripts(ctx)
+    ctx.cov["server_scripts_enumerated"] = len(scripts)
+    sched = scripts + simulate(ctx, 30 if quick else 400, w)
     # U3 input: free-running scans (seeded configurations, server policies, perturbation)
     nfree = 80 if quick else 2500
     fpath = ctx.path("free_cases.ndjson")
@@ -390,7 +420,7 @@ def run(ctx):
     # TLC judges every recorded execution: B actions + A monitor; a B-level rejection is re-judged at level A
     acc, badB = validate(ctx, traces, "B")
     cands = []
-    drift = 0
+    drift = lost = 0
     for ti, ev in badB:
         tr = traces[ti]
         accA, badA = validate(ctx, [tr], "A", max_rejects=1)
@@ -400,6 +430,14 @@ def run(ctx):
                           "what": "execution of Scan rejected by the A-layer monitor (Trace_CTScanner, level A) at event %s"
                                   % json.dumps({k: v for k, v in badA[0][1].items() if k in ("ev", "id", "a", "b", "err", "pos")}),
                           "case": case})
+        elif ev.get("ev") == "counters":
+            # the execution satisfies the property layer, but a counter other than certsProcessed ended below the
+            # number of entries that incremented it: a lost update, i.e. the data race of the known findings
+            # showing its effect in an ordinary build.  The race detector runs below carry the verdict.
+            lost += 1
+            ctx.note("lost update observed on the real code (no race detector): final counters certs=%d precerts=%d "
+                     "unparsable=%d nonfatal=%d in a scan with %d matchers" %
+                     (ev["id"], ev["a"], ev["b"], ev["pos"], tr[0]["_case"]["cfg"]["nm"]))
         else:
             drift += 1
             print("MODEL-DRIFT property=C17 trace of case %s leaves the B model at %s but satisfies the A layer" %
@@ -413,6 +451,7 @@ def run(ctx):
     ctx.cov["traces_validated_against_impl"] += acc
     ctx.cov["scheduled_behaviours_replayed"] = nsched
     ctx.cov["model_drift_traces"] = drift
+    ctx.cov["lost_updates_observed"] = lost
     ctx.cov["event_counts"] = seen
     nontriv = set()
     for tr in traces:
@@ -452,7 +491,7 @@ def run(ctx):
         want = body["sig"]
         if want in reseen:
             return True
-        for k in range(4):
+        for k in range(6):
             got = run_race(ctx, rbin, body["case"]["cases"], "rerace%d" % k)
             reseen.extend(g["sig"] for g in got)
             if want in reseen:
